@@ -123,7 +123,7 @@ def r2(run, db):
         if v == "CallReply":
             nm0, nm1 = names_of(f, s["rv"]["ops"][0]), names_of(f, s["rv"]["ops"][1])
             run.check("tag" in nm0 and "what" in nm1, "CallReply<-frame", "CallReply carries the Reply frame's tag and payload", "CallReply fields from %s / %s" % (nm0, nm1), f.where(s.get("l")))
-    run.anchor("serialized messages built from frames", n, 4)
+    run.anchor("serialized messages built from frames", n, 3)      # Cast, Call (one site per reply-port form, or a shared one), Reply
     # the reply frames built in the spawned task
     kids = [g for g in db.children(f.id) if g.kind == "coroutine"]
     nr = 0
@@ -139,7 +139,7 @@ def r2(run, db):
                 run.check(fld in nm and all(r["fn"].id == f.id for r in rts), "Reply.%s<-Call.%s@%d" % (fld, fld, site.bb), "the reply's `%s` is the `%s` of the Call frame it answers" % (fld, fld), "reply `%s` does not originate from the Call frame (%s)" % (fld, nm), g.where(s.get("l")))
             rts = g.origins(vals["what"])
             run.check(all(r["k"] == "call" for r in rts) and rts, "Reply.what<-awaited@%d" % site.bb, "the reply payload is the awaited result", None, g.where(s.get("l")))
-    run.anchor("reply frames", nr, 2)
+    run.anchor("reply frames", nr, 1)     # one per wait form, or a shared one
     # the oneshot: tx into the Call's reply port, rx awaited by the task
     ones = [c for c in f.calls() if c.matches(r"concurrency::(\w+::)?oneshot$")]
     run.check(len(ones) == 1, "one-oneshot", "one reply channel per inbound Call", "%d reply channels" % len(ones), f.where())
@@ -199,6 +199,27 @@ def r4(run, db):
                 for r in f.origins(x.args[1], through=lambda cc: 0 if cc.matches(r"get_cell$|Deref>::deref$|Clone>::clone$") else None):
                     if r["k"] == "call":
                         srcs.add(r["call"].name.split("::")[-1])
+            # ... or collected from an iterator whose mapping closure yields them
+            thr_c = lambda cc: 0 if cc.matches(r"get_cell$|Deref>::deref$|Clone>::clone$|Option::<T>::(map|cloned|as_ref)$") else None
+            for r in f.origins(c.args[2] if len(c.args) > 2 else c.args[-1], through=lambda cc: 0 if cc.matches(r"Iterator::collect$|IntoIterator>::into_iter$|IntoIterator::into_iter$") else None):
+                if r["k"] == "call" and r["call"].matches(r"Iterator::(filter_map|map|flat_map)$"):
+                    for r2 in f.origins(r["call"].args[1]):
+                        if r2["k"] == "agg" and r2["stmt"]["rv"].get("kind") == "closure":
+                            g = db.fns.get(r2["stmt"]["rv"]["def"])
+                            if g is None:
+                                continue
+                            stack = [x for x in g.origins([0, []], through=thr_c)]
+                            seen_ = 0
+                            while stack and seen_ < 40:
+                                x = stack.pop()
+                                seen_ += 1
+                                if x["k"] == "call":
+                                    srcs.add(x["call"].name.split("::")[-1])
+                                    if x["call"].matches(r"Option::<T>::(map|and_then)$") and len(x["call"].args) > 1:
+                                        srcs.discard(x["call"].name.split("::")[-1])
+                                        stack += g.origins(x["call"].args[0], through=thr_c)
+                                elif x["k"] == "agg" and x["stmt"]["rv"].get("variant") == "Some":
+                                    stack += g.origins(x["stmt"]["rv"]["ops"][0], through=thr_c)
             run.check(bool(srcs) and srcs <= {"poll", "get", "get_or_spawn_remote_actor", "{closure#0}"} or any("get" in s_ or "closure" in s_ or "poll" in s_ for s_ in srcs), arm + "|cells-from-proxies", "the cells (un)enrolled are this session's proxies (%s)" % sorted(srcs), "cells come from %s" % sorted(srcs), c.where())
     # outgoing join/leave frames carry the event's scope/group
     sv = [g for g in db.crate_fns(RC) if re.search(r"NodeSession as ractor::Actor>::handle_supervisor_evt::\{closure#0\}$", g.id)]
@@ -223,7 +244,7 @@ def r5(run, db):
     fam = db.family(f.id)
     inline = [c for c in f.calls() if c.matches(r"ActorCell::send_serialized$")]
     nested = [(g, c) for g in fam if g.id != f.id for c in g.calls() if c.matches(r"ActorCell::send_serialized$")]
-    run.check(len(inline) >= 4 and not nested, "delivery-inline", "all %d deliveries to local actors happen inline in handle_node, in frame order" % len(inline),
+    run.check(len(inline) >= 3 and not nested, "delivery-inline", "all %d deliveries to local actors happen inline in handle_node, in frame order" % len(inline),
               "a delivery to the local actor happens inside %s (a spawned task): a later cast from the same sender can overtake an earlier call" % [g.id.split("::")[-1] for g, c in nested], f.where())
     sp = [c for c in f.calls() if re.search(r"concurrency::(\w+::)?spawn\w*$", c.callee or "") or ROOT_RX.match(c.callee or "")]
     call_arm = [c for c in sp if msg_variant_edges(f, c.site) == {"Call"}]
